@@ -76,6 +76,9 @@ def run(tier, seed):
             bounded.append(l.replace("steps=none", "steps=cont:%d" % (4 + rng.below(10))))
         elif l.startswith("=== "):
             bounded.append(l + "_b")
+        elif l.startswith("run "):
+            t = l[4:].split(":")     # one execution per run (F19 would make later ones differ from the model)
+            bounded.append("run " + (":".join(t[:-1] + ["1"]) if t[0] in ("random", "pct") else "rr:1"))
         else:
             bounded.append(l)
     res["panic_streams_continue_after"] = run_stream("c12_panic_b", bounded, "trace")
